@@ -743,11 +743,13 @@ Section XmlOracles.
     match ds with
     | [] => mismatch o
     | _ =>
-      let frac := match rest with c :: c2 :: _ => (c =? 46) && is_digit c2 | _ => false end in
-      if frac then mismatch o
+      (* from_chars of an unsigned type does not take a minus sign; a value that does not fit is reported by from_chars
+         itself, before the check for a fraction *)
+      if neg && (ity_min k =? 0)%Z then mismatch o
       else
+        let frac := match rest with c :: c2 :: _ => (c =? 46) && is_digit c2 | _ => false end in
         let z := if neg then (- Z.of_N (digits_val ds))%Z else Z.of_N (digits_val ds) in
-        if in_range k z then Loaded (VInt z) else overflow o
+        if in_range k z then (if frac then mismatch o else Loaded (VInt z)) else overflow o
     end.
 
   (* Convert::To<bool>(text) *)
@@ -773,6 +775,19 @@ Section XmlOracles.
     | [] => mismatch o
     end.
 
+  (* PugiXmlExtensions::LoadValueFromText (numbers, bool: Convert::To<T>(text) under the two policies) and the string
+     path, for the text of an element or the value of an attribute *)
+  Definition conv_xml_text (o : opts) (t : ty) (s : list N) : lout :=
+    match t with
+    | TyStr => Loaded (VStr s)
+    | TyBool => parse_bool_text o s
+    | TyInt k => parse_int_text o k s
+    | TyDbl => match xstrtod (skip_blanks s) with Some (Some b) => Loaded (VDbl b) | Some None => overflow o | None => mismatch o end
+    | TyFlt => match xstrtof (skip_blanks s) with Some (Some b) => Loaded (VFlt b) | Some None => overflow o | None => mismatch o end
+    | TyEnum names => match find_enum names s 0 with Some i => Loaded (VEnum i) | None => mismatch o end
+    | _ => mismatch o
+    end.
+
   (* PugiXmlExtensions::LoadValue on an element *)
   Definition load_xml_scalar (o : opts) (t : ty) (ch : list xnode) : lout :=
     match t with
@@ -780,30 +795,17 @@ Section XmlOracles.
     | _ =>
       match first_text ch with
       | None => NotLoaded                                  (* "empty node is treated as null" *)
-      | Some s =>
-        match t with
-        | TyStr => Loaded (VStr s)
-        | TyBool => parse_bool_text o s
-        | TyInt k => parse_int_text o k s
-        | TyDbl => match xstrtod (skip_blanks s) with Some (Some b) => Loaded (VDbl b) | Some None => overflow o | None => mismatch o end
-        | TyFlt => match xstrtof (skip_blanks s) with Some (Some b) => Loaded (VFlt b) | Some None => overflow o | None => mismatch o end
-        | TyEnum names => match find_enum names s 0 with Some i => Loaded (VEnum i) | None => mismatch o end
-        | _ => mismatch o
-        end
+      | Some s => conv_xml_text o t s
       end
     end.
 
-  (* xml_attribute::as_int / as_uint / as_llong / as_ullong / as_bool / as_string, for the texts the archive writes *)
-  Definition load_xml_attr (t : ty) (s : list N) : lout :=
+  (* PugiXmlAttributeScope::SerializeValue on a present attribute (commit eaa6abb): numbers and bool through
+     LoadValueFromText(attr.value()) - the conversion and the policies of element values; an empty value is a text that
+     is not a number, not "null" *)
+  Definition load_xml_attr (o : opts) (t : ty) (s : list N) : lout :=
     match t with
     | TyStr => Loaded (VStr s)
-    | TyBool => Loaded (VBool (match s with c :: _ => (c =? 49) || (c =? 116) || (c =? 84) || (c =? 121) || (c =? 89) | [] => false end))
-    | TyInt k =>
-      let (neg, s2) := match s with c :: r => if c =? 45 then (true, r) else (false, s) | [] => (false, s) end in
-      let (ds, _) := span_digits s2 in
-      Loaded (VInt (if neg then (- Z.of_N (digits_val ds))%Z else Z.of_N (digits_val ds)))
-    | TyDbl => match xstrtod s with Some (Some b) => Loaded (VDbl b) | _ => Loaded (VDbl 0) end
-    | TyFlt => match xstrtof s with Some (Some b) => Loaded (VFlt b) | _ => Loaded (VFlt 0) end
+    | TyBool | TyInt _ | TyDbl | TyFlt => conv_xml_text o t s
     | TyEnum names => match find_enum names s 0 with Some i => Loaded (VEnum i) | None => NotLoaded end
     | _ => NotLoaded
     end.
@@ -883,7 +885,7 @@ Section XmlOracles.
              | [] => Loaded (VObj [])
              | (k, fk, ft) :: fs' =>
                let r := match fk with
-                        | FAttr => match find_attr attrs k with Some s => load_xml_attr ft s | None => NotLoaded end
+                        | FAttr => match find_attr attrs k with Some s => load_xml_attr o ft s | None => NotLoaded end
                         | FElem => match find_child ch k with Some c => load_xml_inner o false ft c | None => NotLoaded end
                         end in
                match r with
@@ -971,6 +973,17 @@ Definition ty_attronly : ty := TyObj [
   ([116; 121; 112; 101], FAttr, TyStr)            (* type *)
 ].
 
+(* XML only: numbers and a bool of every width as attributes *)
+Definition ty_attrnum : ty := TyObj [
+  ([105; 56], FAttr, TyInt I8);                   (* i8 *)
+  ([117; 56], FAttr, TyInt U8);                   (* u8 *)
+  ([105; 49; 54], FAttr, TyInt I16);              (* i16 *)
+  ([117; 51; 50], FAttr, TyInt U32);              (* u32 *)
+  ([105; 54; 52], FAttr, TyInt I64);              (* i64 *)
+  ([98], FAttr, TyBool);                          (* b *)
+  ([100], FAttr, TyDbl)                           (* d *)
+].
+
 (* enum class Colour { Red, Green, DarkBlue } registered as "Red", "green", "Dark Blue&<" *)
 Definition enum_colour : ty := TyEnum [[82; 101; 100]; [103; 114; 101; 101; 110]; [68; 97; 114; 107; 32; 66; 108; 117; 101; 38; 60]].
 
@@ -1004,5 +1017,7 @@ Definition catalogue : list ty := [
   TyInt I8; TyVec (TyInt I8);
   TyOpt (TyInt I32); TyOpt TyStr; TyVec (TyOpt (TyInt I32)); TyVec (TyOpt TyStr); TyMap (TyOpt TyDbl);
   TyOpt (TyVec (TyInt I32));
-  ty_optc; TyVec ty_optc
+  ty_optc; TyVec ty_optc;
+  (* #59, #60 : numeric attributes *)
+  ty_attrnum; TyVec ty_attrnum
 ].
